@@ -73,7 +73,60 @@ def run_c14(res, tier):
     return {}
 
 
+def run_c02(res, tier):
+    import bcops
+    from common import load_expanded
+    ast = load_ast()
+    east = load_expanded()
+    st = bcops.run_bc_effect(res, ast, east)
+    bcops.run_bc_fixed(res, ast)
+    bcops.run_bc_thread(res, ast)
+    bcops.run_bc_simul(res, ast)
+    import moves, passes
+    moves.run_moves(res, ast)
+    passes.run_pass_kill(res, ast)
+    return {"bc_effect": {k: (len(v) if isinstance(v, set) else v) for k, v in (st or {}).items()}}
+
+
+def run_c06(res, tier):
+    import moves, jit, iolim, passes, asmtab
+    ast = load_ast()
+    moves.run_moves(res, ast, rules=("PROBE-DIR", "UNSAFE-TWIN", "WIN-ENTRY"))
+    jit.run_jit_rules(res, ast, ["PROBE-SEQ", "PROBE-DIR-JIT", "ABI-OFFSETS"])
+    res.rule("SAFE-MAP", "execute / execute_limited / execute_unsafe select (limited, safe) = (false,true) / (true,true) / (false,false); "
+             "interpreters without unchecked code do not override execute_unsafe", floor=8, what="entry points")
+    iolim.run_mode_map(res, ast, "SAFE-MAP")
+    passes.run_c11(res, ast, rules=("WINDOW-BY-CONSTRUCTION",))
+    asmtab.run_asm_table(res, ast)
+    asmtab.run_sel_width(res, ast)
+    return {}
+
+
+def run_c10(res, tier):
+    import moves, jit, iolim
+    ast = load_ast()
+    moves.run_moves(res, ast, rules=("UNSAFE-TWIN",))
+    jit.run_jit_rules(res, ast, ["PROBE-SEQ"])
+    res.rule("SAFE-MAP", "execute / execute_limited / execute_unsafe select (limited, safe) = (false,true) / (true,true) / (false,false); "
+             "interpreters without unchecked code do not override execute_unsafe", floor=8, what="entry points")
+    iolim.run_mode_map(res, ast, "SAFE-MAP")
+    moves.run_prealloc(res, ast)
+    return {}
+
+
+def run_c11(res, tier):
+    import passes, bcops
+    ast = load_ast()
+    passes.run_c11(res, ast)
+    passes.run_pass_kill(res, ast)
+    return {}
+
+
 REGISTRY = {
+    "C06": {"run": run_c06, "level": "other", "technique": "t", "claim": "c", "note": "n", "explanation": "e", "not_decided": []},
+    "C10": {"run": run_c10, "level": "other", "technique": "t", "claim": "c", "note": "n", "explanation": "e", "not_decided": []},
+    "C11": {"run": run_c11, "level": "other", "technique": "t", "claim": "c", "note": "n", "explanation": "e", "not_decided": []},
+    "C02": {"run": run_c02, "level": "other", "technique": "t", "claim": "c", "note": "n", "explanation": "e", "not_decided": []},
     "C12": {"run": run_c12, "level": "other", "technique": "t", "claim": "c", "note": "n", "explanation": "e", "not_decided": []},
     "C04": {"run": run_c04, "level": "other", "technique": "t", "claim": "c", "note": "n", "explanation": "e", "not_decided": []},
     "C14": {"run": run_c14, "level": "other", "technique": "t", "claim": "c", "note": "n", "explanation": "e", "not_decided": []},
